@@ -307,7 +307,7 @@ fn c17b_validate_v6_1roa() {
     std::mem::forget(out);
 }
 
-// vk: unwindset=memcmp.0:17
+// vk: tier=thorough; timeout=1800; unwindset=memcmp.0:17; bound=2 arbitrary v6 ROAs x 1 arbitrary announcement, full 128-bit width
 #[kani::proof]
 #[kani::unwind(6)]
 fn c17b_validate_v6_2roas() {
@@ -335,6 +335,7 @@ fn c17b_validate_v6_2roas() {
     std::mem::forget(out);
 }
 
+// vk: tier=thorough; timeout=1800; bound=3 arbitrary v4 ROAs x 1 arbitrary announcement, full 32-bit width
 #[kani::proof]
 #[kani::unwind(8)]
 fn c17b_validate_v4_3roas() {
@@ -362,29 +363,6 @@ fn c17b_validate_v4_3roas() {
 }
 
 //------------ C17(d): removing a redundant ROA cannot invalidate -------------
-
-/// The real redundancy decision: `categorise_roa` on two arbitrary ROAs (no
-/// announcements needed for this decision). Whenever it files R0 as
-/// "redundant" (the state `suggest` turns into a removal), every route R0
-/// matches is also matched by the other ROA, so the removal cannot turn a
-/// valid announcement invalid or not-found.
-#[kani::proof]
-#[kani::unwind(5)]
-fn c17d_redundant_removal_safe_v4() {
-    let r0 = any_roa4();
-    let r1 = any_roa4();
-    let roas = [Roa::new(pfx4(&r0), &r0), Roa::new(pfx4(&r1), &r1)];
-    let entry = BgpAnalyser::categorise_roa(roas[0], &[], &roas);
-    let ap = any_v4();
-    let route = Route { bits: (v4_bits(ap) as u128) << 96, len: ap.addr_len(), asn: AsNumber::from_u32(kani::any()) };
-    let redundant = entry.state() == BgpAnalysisState::RoaRedundant;
-    if redundant && ref_matches(&vrp4(&r0), &route) {
-        assert!(ref_matches(&vrp4(&r1), &route));
-    }
-    kani::cover!(redundant && ref_matches(&vrp4(&r0), &route));
-    kani::cover!(!redundant);
-    std::mem::forget(entry);
-}
 
 /// If R' includes R (payload level) and R matches a route, so does R'.
 #[kani::proof]
